@@ -105,6 +105,10 @@ func (t *TreeIn) yamlTree() ([]byte, error) {
 				if len(i.Configs) > 0 {
 					seq := &yaml.Node{Kind: yaml.SequenceNode}
 					for _, c := range i.Configs {
+						if c == nil {
+							seq.Content = append(seq.Content, null()) // an entry written as a bare `-`: it sets nothing
+							continue
+						}
 						seq.Content = append(seq.Content, toNode(c))
 					}
 					add(inn, "configs", seq)
@@ -361,6 +365,9 @@ func (g *treeGen) tree() *TreeIn {
 				ii.Config = g.cfg(fmt.Sprintf("p%d.I%d", p, i), true)
 				for e := g.r.Intn(4); e > 0; e-- {
 					ec := g.cfg(fmt.Sprintf("p%d.I%d.e%d", p, i, e), false)
+					if g.r.Intn(8) == 0 {
+						ec = nil
+					}
 					ii.Configs = append(ii.Configs, ec)
 				}
 			}
